@@ -102,12 +102,12 @@ EXPORT errno_t _strstr_s_chk(char *dest, rsize_t dmax, const char *src,
         CHK_DEST_OVR("strstr_s", destbos)
     }
 
+    if (unlikely(slen > RSIZE_MAX_STR)) {
+        invoke_safe_str_constraint_handler("strstr_s: slen exceeds max",
+                                           (void *)src, ESLEMAX);
+        return RCNEGATE(ESLEMAX);
+    }
     if (srcbos == BOS_UNKNOWN) {
-        if (unlikely(slen > RSIZE_MAX_STR)) {
-            invoke_safe_str_constraint_handler("strstr_s: slen exceeds dmax",
-                                               (void *)src, ESLEMAX);
-            return RCNEGATE(ESLEMAX);
-        }
         BND_CHK_PTR_BOUNDS(src, slen);
     } else {
         if (unlikely(slen > srcbos)) {
